@@ -13,6 +13,10 @@ def hook_commits():
 
 # id -> (technique, level text, level note, design ref)
 CHECKS = {
+ "C03": ("exhaustive operator-pair enumeration + rapid type-directed expression trees against an independent reference evaluator and a parse-structure oracle",
+         "Exploration. All 19x19 binary operator nestings on either side, all prefix x binary / prefix x prefix combinations (each printed with the minimal parentheses the DOCUMENTED precedence requires and fully parenthesised) with well-typed operands and one ill-typed operand of every other kind per slot are enumerated completely; random type-directed trees to depth 6 add redundant parentheses, layout and keyword-case variation. Two oracles: the tree ECAL parsed must equal the generated tree (precedence/associativity independent of values) and Eval must equal the harness's own evaluator (bit-exact floats) or fail with the documented error kind naming the operand. Behaviour the references leave open (cross-kind ordering/equality, %, / by zero, short-circuit over a failing operand) is discarded and counted.",
+         "Relative to internal/lang (the harness's reading of ecal.md and the property text; shares no code with /repo). Depth beyond 6 and operands outside the fixed universe are not explored.",
+         "DESIGN.md 4/C03"),
  "C17": ("exhaustive enumeration + rapid random generation of (root, path) pairs against a sentinel-file oracle",
          "Exploration. Every (root form x path) pair over a 7-segment alphabet up to length 4 (quick) / 6 (thorough) is enumerated completely against a directory tree in which every reachable location, inside and outside the root, holds a sentinel naming its own canonical path; random longer paths with hostile segments are added by rapid, both through Resolve and through ECAL import statements. A returned content that names a location outside the lexical root is a violation. Exhaustive within the bound, sampled beyond; no absence proof for longer paths.",
          "Trusts the harness's 10-line stack normaliser for the root only (the content oracle is independent of any normaliser); symlinks are out of scope (the statement says lexically inside).",
